@@ -26,7 +26,7 @@ RULE = ('topologies {chain 2-5, tee, tee-rejoin 2-3 branches, independent join} 
 ASSUMPTIONS = ['assumptions of the property are enforced by the generator (required outputs, delays < 100 ms, no faults, no skipping inside rejoined branches)',
                'sources go idle instead of exiting after their last frame, so the tail of the stream is judged without racing the exit message',
                'simnet assumptions of C01']
-EXHAUSTIVE = None
+EXHAUSTIVE = 'all start-order permutations (filters started 150 ms apart) x D in {0,10,50,95} ms for 2 (quick) / 6 (thorough) generated 3-4-filter pipelines'
 
 
 def gen(rng, seed):
@@ -304,6 +304,35 @@ def run_shard(ctx):
         if k == 0 and ctx.shard == 0:
             res.sample({'family': scn['family'], 'feats': scn['feats'], 'nodes': [(n_['id'], n_['config'].get('sources'), n_['beh']) for n_ in scn['nodes']],
                         'model_vs_observed_first_inputs': {nid: [brief({t: norm_tok(k) for t, k in s.items()}) for s in v[:3]] for nid, v in reference(scn).items() if v}})
+    # start orders enumerated exhaustively for small pipelines: every permutation of the filters, started 150 ms apart,
+    # for every delay class D (the handshake must make the first frame survive whatever comes up first)
+    import itertools
+    idx = 0
+    for fam_seed in range(2 if ctx.quick else 6):
+        rng = ctx.rng('perm-base', fam_seed)
+        base = None
+        for _ in range(50):
+            cand = gen(rng, rng.randrange(1 << 30))
+            if 3 <= len(cand['nodes']) <= 4:
+                base = cand
+                break
+        if base is None:
+            continue
+        ids = [n_['id'] for n_ in base['nodes']]
+        for perm in itertools.permutations(ids):
+            for D in (0, 10, 50, 95):
+                idx += 1
+                if not ctx.mine(idx):
+                    continue
+                scn = json.loads(json.dumps(base))
+                for n_ in scn['nodes']:
+                    n_['start_ms'] = 150 * perm.index(n_['id'])
+                scn['link']['max_delay_ms'] = D
+                try:
+                    run_one(scn, res)
+                    res.count('start_order_permutation_runs')
+                except Exception as e:
+                    res.inconclusive.append(f'scenario crashed the harness: {type(e).__name__}: {e}')
     return res
 
 
